@@ -184,7 +184,7 @@ def pcong : Component :=
   `discard <path>` | `retry <path>` | `confirmed` | `pathflags <path> <peer_validated> <at_amplification_limit>` |
   `mad <path> <ms>` | `active <path>`
   -> `ok acked=<pns> lost=<pns> discarded=<pns> bif=<b0>,<b1>,<b2>,<b3> la=<n|none> losstimer=<us|none> pto=<us|none>
-         tx=<n> backoff=<active path> srtt=<active path, ns> tracked=<n> uf=<0|1> panic=<0|1>`
+         tx=<n> backoff=<active path> srtt=<active path, ns> thr=<loss_time_threshold of paths 0..3, ns> tracked=<n> uf=<0|1> panic=<0|1>`
      | `err protocol-violation` | `bad-op` -/
 def range? (s : String) : Option (Nat × Nat) :=
   match s.splitOn "-" with
@@ -204,7 +204,7 @@ def mgrShow (m : Manager.Manager) (o : Manager.Out) : String :=
   s!"ok acked={natList o.acked} lost={natList o.lost} discarded={natList o.discarded} " ++
   s!"bif={(m.paths 0).bytesInFlight},{(m.paths 1).bytesInFlight},{(m.paths 2).bytesInFlight},{(m.paths 3).bytesInFlight} " ++
   s!"la={optNat m.largestAcked} losstimer={optNat m.lossTimer} pto={optNat m.pto.timer} tx={Pto.transmissions m.pto} " ++
-  s!"backoff={act.ptoBackoff} srtt={act.rtt.smoothedRtt} tracked={m.sent.length} uf={boolStr m.underflow} panic={boolStr m.panicked}"
+  s!"backoff={act.ptoBackoff} srtt={act.rtt.smoothedRtt} thr={Rtt.lossTimeThreshold (m.paths 0).rtt},{Rtt.lossTimeThreshold (m.paths 1).rtt},{Rtt.lossTimeThreshold (m.paths 2).rtt},{Rtt.lossTimeThreshold (m.paths 3).rtt} tracked={m.sent.length} uf={boolStr m.underflow} panic={boolStr m.panicked}"
 
 def mgrOp? (t : List String) : Option Manager.Op :=
   match t with
